@@ -17,6 +17,8 @@ def warm_layouts():
                  ("DepGraphs", "DepGraphs_cycles.cfg"), ("DepGraphs", "DepGraphs_scopes.cfg"),
                  ("Layouts", "Layouts_cli.cfg")]:
         C.run_tlc(m, c, workers=12, timeout=7200)
+    import randlayouts
+    randlayouts.load_cases("quick")
     C.run_tlc("Lsp", "Lsp_quick.cfg", workers=8, timeout=3600)
     C.run_tlc("Conc", "Conc_c09.cfg", workers=12, timeout=3600)
     C.run_tlc("Conc", "Conc_c10.cfg", workers=12, timeout=3600)
